@@ -741,8 +741,12 @@ pub trait DZKPValidator: Send + Sync {
             source.enumerate().map(move |(index, fut)| {
                 let ctx = ctx.clone();
                 fut.then(move |res| async move {
+                    // Request validation even if this item failed. Otherwise the other records
+                    // of its validation batch would wait forever for the batch to fill up, and
+                    // the stream would never yield the error.
+                    let validation = ctx.validate_record(RecordId::from(index)).await;
                     let item = res?;
-                    ctx.validate_record(RecordId::from(index)).await?;
+                    validation?;
                     Ok(item)
                 })
             }),
